@@ -762,7 +762,7 @@ impl<'c, 'p> Inst<'c, 'p> {
 /// A rendered script + its model.
 struct BuiltScript { header: String, body: String, model: ScriptM }
 
-struct ScriptSpec<'a> { lang: Lang, name: &'a str, index: usize, prefix: &'a str, marker_base: u32, sk: &'a [Sk], frozen: bool, params: usize, const_use: Option<(&'a str, bool)>, local_consts: Vec<String>, len0: Option<usize> }
+struct ScriptSpec<'a> { lang: Lang, name: &'a str, index: usize, prefix: &'a str, marker_base: u32, sk: &'a [Sk], frozen: bool, params: usize, /** bit p set: parameter p is declared without a name */ unnamed: u32, const_use: Option<(&'a str, bool)>, local_consts: Vec<String>, len0: Option<usize> }
 
 fn build_script(ch: &mut Chooser, game: Game, sp: &ScriptSpec) -> BuiltScript {
     let mut inst = Inst { ch, lang: sp.lang, game, prefix: sp.prefix.to_string(), marker_base: sp.marker_base, n_marker: 0, n_label: 0, n_local: 0, n_diff: 0, scope: vec![vec![]], locals: vec![], frozen: sp.frozen, len0: sp.len0 };
@@ -781,6 +781,7 @@ fn build_script(ch: &mut Chooser, game: Game, sp: &ScriptSpec) -> BuiltScript {
         let float = p % 2 == 1;
         let name = format!("{}p{}", sp.prefix, p);
         let (sentinel, lit) = if float { let f = (7151 + p) as f32; (f.to_bits(), format!("{f:.1}")) } else { (7051 + p as u32, format!("{}", 7051 + p)) };
+        if sp.unnamed >> p & 1 == 1 { params_src.push((if float { "float" } else { "int" }).to_string()); continue; }
         params_src.push(format!("{} {name}", if float { "float" } else { "int" }));
         pre.push(Node::Stmt { text: format!("{name} = {lit};"), dword: Some(sentinel), single: true });
         inst.scope[0].push((name.clone(), float));
@@ -886,8 +887,11 @@ fn gen_body_case(ch: &mut Chooser, tool: Tool, lang: Lang, sk: &[Sk], sk_text: &
     let layout = ch.pick(n_layouts);
     // sub parameter lists: () | (int) | (int, float) | th07+: (int, float, int, float)
     let params = if lang == Lang::EclSub { [0, 1, 2, 4][ch.pick(if game == Game::Th06 { 3 } else { 4 })] } else { 0 };
+    // four parameters: the first int, or the first int and the first float, may be declared without a name; the named ones
+    // behind them keep their place in the per-type register sequence
+    let unnamed = if params == 4 { [0u32, 0b0001, 0b0011][ch.pick(3)] } else { 0 };
     let name_a = if tool.kind == Kind::Std { "main" } else { "scrA" };
-    let spec_a = |index: usize| ScriptSpec { lang, name: name_a, index, prefix: "a", marker_base: 0x5A5A_0000, sk, frozen: false, params, const_use: None, local_consts: vec![], len0 };
+    let spec_a = |index: usize| ScriptSpec { lang, name: name_a, index, prefix: "a", marker_base: 0x5A5A_0000, sk, frozen: false, params, unnamed, const_use: None, local_consts: vec![], len0 };
     let main_lang = sub_lang(tool);
     // companion scripts are built from explicit nodes so that they always contain labels
     let companion = |name: &str, l: Lang, index: usize, prefix: &str, base: u32| -> BuiltScript {
@@ -1035,11 +1039,11 @@ fn gen_const_case(ch: &mut Chooser, tool: Tool, depth: u32, n: usize) -> Option<
     }
     let sk = parse_sk("M");
     let const_use = if lang.regs() { Some((names[0].as_str(), types[0])) } else { None };
-    let a = build_script(ch, game, &ScriptSpec { lang, name: if tool.kind == Kind::Std { "main" } else { "scrA" }, index: 0, prefix: "a", marker_base: 0x5A5A_0000, sk: &sk, frozen: true, params: 0, const_use, local_consts, len0: None });
+    let a = build_script(ch, game, &ScriptSpec { lang, name: if tool.kind == Kind::Std { "main" } else { "scrA" }, index: 0, prefix: "a", marker_base: 0x5A5A_0000, sk: &sk, frozen: true, params: 0, unnamed: 0, const_use, local_consts, len0: None });
     let mut timelines = vec![];
     if tool.kind == Kind::Ecl {
         let tsk = parse_sk("M");
-        timelines.push(build_script(ch, game, &ScriptSpec { lang: Lang::Timeline, name: "tlF", index: 0, prefix: "g", marker_base: 0x5C5C_0000, sk: &tsk, frozen: true, params: 0, const_use: None, local_consts: vec![], len0: None }));
+        timelines.push(build_script(ch, game, &ScriptSpec { lang: Lang::Timeline, name: "tlF", index: 0, prefix: "g", marker_base: 0x5C5C_0000, sk: &tsk, frozen: true, params: 0, unnamed: 0, const_use: None, local_consts: vec![], len0: None }));
     }
     let srefs = vec![&a];
     let trefs: Vec<&BuiltScript> = timelines.iter().collect();
@@ -1399,7 +1403,7 @@ pub fn run(tier: &str) -> Report {
     rep.extra.insert("selftest_corrupt".into(), json!(corrupt));
     rep.exhaustive = true;
     rep.bound_completed = format!(
-        "formats: ANM th12/th06, ECL th06/th07/th08 (subs + timelines), MSG th06/th08/th12, STD th08/th12; per format every skeleton of the fixed lists ({} register/jump skeletons{}, {} difficulty-switch, {} jump-only, {} straight-line) x file layouts (1-3 scripts, 2 ANM entries, ECL timelines, dense/repeated/sparse+default MSG tables) x sub parameter lists (0,1,2,4) x E-DFS with <= {} deviations over slot contents before/between/after all statements of every block (label | 2 labels | +N: | N: cost 1; label,+N: | +N:,label | label,N:,label | 32-bit wrapping +N: cost 2), statement variants (blob sizes, text lengths, furigana-style texts, blob instead of text, int/float locals, expression shapes, difficulty-switch shapes); MSG: full product over first-text length 0..9 for {} skeletons; consts: 1-3 consts x every declaration order (full product), int/float, expression depth 2 over {} int / {} float operators, references and casts, file-level or script-level, <= {} deviations on ANM th12 (<= {} elsewhere; one less for 3 consts unless thorough ANM th12); register-less ANM th06 / STD bodies get one more deviation when thorough",
+        "formats: ANM th12/th06, ECL th06/th07/th08 (subs + timelines), MSG th06/th08/th12, STD th08/th12; per format every skeleton of the fixed lists ({} register/jump skeletons{}, {} difficulty-switch, {} jump-only, {} straight-line) x file layouts (1-3 scripts, 2 ANM entries, ECL timelines, dense/repeated/sparse+default MSG tables) x sub parameter lists (0,1,2,4; with 4, the leading int or the leading int and float also unnamed) x E-DFS with <= {} deviations over slot contents before/between/after all statements of every block (label | 2 labels | +N: | N: cost 1; label,+N: | +N:,label | label,N:,label | 32-bit wrapping +N: cost 2), statement variants (blob sizes, text lengths, furigana-style texts, blob instead of text, int/float locals, expression shapes, difficulty-switch shapes); MSG: full product over first-text length 0..9 for {} skeletons; consts: 1-3 consts x every declaration order (full product), int/float, expression depth 2 over {} int / {} float operators, references and casts, file-level or script-level, <= {} deviations on ANM th12 (<= {} elsewhere; one less for 3 consts unless thorough ANM th12); register-less ANM th06 / STD bodies get one more deviation when thorough",
         SK_REGS.len(), if thorough { format!(" + {} larger", SK_REGS_THOROUGH.len()) } else { String::new() }, SK_DIFF.len(), SK_JUMPS.len(), SK_FLAT.len(),
         if thorough { 3 } else { 2 }, if thorough { SK_FLAT.len() } else { 2 }, C_IOPS.len() + 2, C_FOPS.len() + 1, if thorough { 3 } else { 2 }, if thorough { 2 } else { 1 });
     rep.rule = "instruction sizes in some script of the written file are not all equal, or >= 1 local / label / const is present".into();
